@@ -26,7 +26,7 @@ def cases(tier, seed):
     rng = random.Random("C01/%d/%s" % (seed, tier))
     n = 56 if tier == "quick" else 480
     out = []
-    fams = ["SDR1", "SDR1", "SDR2", "DDR2x", "LPDDR", "DDR3x2", "DDR3x4", "DDR4x4"]
+    fams = ["SDR1", "SDR1", "SDR2", "DDR2x", "LPDDR", "DDR3x2", "DDR3x4", "DDR4x4", "LPDDR4x8", "LPDDR5x1", "SDR2"]
     for k in range(n):
         r = random.Random("C01/%d/%s/%d" % (seed, tier, k))
         if k % 8 == 7:
